@@ -151,7 +151,10 @@ func (f *Field) DecodeNewsPath() ([]string, error) {
 	var paths []string
 
 	for i := uint16(0); i < pathCount; i++ {
-		scanner.Scan()
+		// A field that ends before the announced number of items names no path: Text() would repeat the previous item.
+		if !scanner.Scan() {
+			return nil, errors.New("news path ends before the announced number of items")
+		}
 		paths = append(paths, scanner.Text())
 	}
 
